@@ -28,7 +28,7 @@ def replay_events(c, path):
                          for m in e["mut"])
         if not focus:
             continue
-        out, _ = c.go_harness("internal/cmd", "^TestVerifC20$", env={"VERIF_C20_FOCUS": focus, "VERIF_N": 1})
+        out, _ = c.go_harness("internal/cmd", "^TestVerifC20$", files=["c20_test.go"], env={"VERIF_C20_FOCUS": focus, "VERIF_N": 1})
         got = read_ndjson(out)
         if not ev:
             ev.append(got[0])          # the baseline
@@ -60,7 +60,7 @@ def run(c: Check):
             raise Undecided("nothing to replay in %s" % replay)
     else:
         env = {"VERIF_N": 6000 if th else 1500, "VERIF_REPS": 4 if th else 2}
-        out, _ = c.go_harness("internal/cmd", "^TestVerifC20$", env=env, timeout=1500 if th else 600)
+        out, _ = c.go_harness("internal/cmd", "^TestVerifC20$", files=["c20_test.go"], env=env, timeout=1500 if th else 600)
         ev = read_ndjson(out)
         if len(ev) < 500:
             raise Undecided("only %d configurations recorded" % len(ev))
